@@ -1,3 +1,4 @@
+import Ebu.Props.C03
 import Ebu.Spec.Bus
 import Ebu.Proofs.BusFrame
 import Ebu.Proofs.BusRefine
@@ -101,5 +102,11 @@ theorem publish_at_most_once {R : Type} (I : RegImpl R) (hI : I.Lawful) (cfg : C
     let s' := publish I cfg (exec I cfg n) fr ty v bad sel s
     ((directEnters fr.depth (newTrace s s')).map (·.1)).Nodup :=
   Ebu.Bus.publish_at_most_once I hI cfg n fr ty v bad sel s hwf
+
+/-- `Subscribe appends`, `Unsubscribe removes exactly the first registration …` describe whole API calls: every
+registry mutator of the CURRENT source looks up and updates `shard.handlers` inside ONE write-locked critical section
+(fact table regenerated on every run), so concurrent callers cannot lose or resurrect each other's registrations -/
+theorem registry_calls_atomic : Ebu.Locks.RegistryOpsAtomic Ebu.Generated.accessFacts = true :=
+  Ebu.Props.C03.facts_registry_ops_atomic
 
 end Ebu.Props.C01
